@@ -23,7 +23,19 @@ type Program struct {
 func Load(repo string, overlay map[string][]byte) (*Program, error) {
 	env := append(os.Environ(), "GOFLAGS=-mod=mod", "GOPROXY=off", "GOSUMDB=off", "GOTOOLCHAIN=local")
 	cfg := &packages.Config{Mode: packages.LoadAllSyntax, Dir: repo, Env: env, Overlay: overlay}
-	pkgs, err := packages.Load(cfg, "./...")
+	patterns := []string{"./..."}
+	seen := map[string]bool{}
+	for f := range overlay {
+		// packages that exist only in the overlay are not found by ./...
+		d := filepath.Dir(f)
+		if _, err := os.Stat(d); err != nil && !seen[d] {
+			seen[d] = true
+			if rel, err := filepath.Rel(repo, d); err == nil {
+				patterns = append(patterns, "./"+rel)
+			}
+		}
+	}
+	pkgs, err := packages.Load(cfg, patterns...)
 	if err != nil {
 		return nil, err
 	}
